@@ -6,6 +6,7 @@ from ..common import Ctx, P_HOOKS, P_TYPES, P_PYUTILS, AnalysisError
 from ..metamodel import camel_to_snake
 from .. import special, microeval
 from . import _imgbase, _sitebase
+from ..pymodel import show
 
 META = {
     "level": "other",
@@ -47,6 +48,17 @@ def run(ctx: Ctx):
         ctx.fail("wire-name", f"{cname}.{a}", f"attribute {a} serialises as '{im.camel(a)}', not a property of {cname}", P_TYPES)
     for cname, w, names in im.dup_wire:
         ctx.fail("wire-name-injective", f"{cname}.{w}", f"attributes {names} all serialise as '{w}'", P_TYPES)
+    # a custom value of an open enumeration (a plain str / int handed to the constructor) must serialise as itself: the
+    # generated unstructure function handles the annotated type, and a position annotated with the bare enumeration is
+    # unstructured through `.value`, which a plain value does not have
+    for c in t.attrs_classes():
+        for f in c.fields:
+            for en in _imgbase.open_enum_without_base(mm, f.resolved):
+                ctx.fail("custom-enum-value-serialises", f"{c.name}.{f.name}:{en}",
+                         f"{en} supports custom values, but {c.name}.{f.name} is annotated {show(f.resolved)}: an object built "
+                         f"with a custom value cannot be serialised (the value is unstructured as a member of {en})",
+                         P_TYPES, f.lineno)
+    ctx.ok("custom-enum-value-serialises")
     env = im.envelope_names()
     n_env = 0
     for cname in list(env) + ["ResponseError", "ResponseErrorMessage"]:
